@@ -527,7 +527,10 @@ def shape_map(H):
         last = [o for o in ops if o[0] == chain[-1]]
         H.prove(all(o[3].get("inplace") is True for o in last), "shape_map.last_operation_in_place_on_the_fresh_copy")
     before_ops = len(ops)
-    H.call(SVG._update_etree, svg)
+    _, e2 = H.catch(SVG._update_etree, svg)
+    H.prove(e2 is None, "shape_map.cache_can_be_written_back", detail=repr(e2))
+    if e2 is not None:
+        return
     H.prove(len(ops) == before_ops, "shape_map.serialising_does_not_run_the_operation_again")
     flat = [k for k in root.iterdescendants() if k.attrib.get("id") in ("s0", "s1", "s2")]
     H.prove([k.attrib.get("id") for k in flat] == ["s0", "s1", "s2"] and [k.getparent() is group for k in flat] == [True, True, False] and list(root) [0] is group, "shape_map.every_shape_written_back_at_its_place",
@@ -543,3 +546,83 @@ def shape_map(H):
         else:
             same = {"s0": local(k) == "rect" and k.attrib.get("width") == "2", "s1": k.attrib.get("d") == "M1,1 L2,2 L3,1 Z", "s2": local(k) == "circle" and k.attrib.get("r") == "4"}[t]
             H.prove(same, "shape_map.untouched_shapes_written_back_as_they_were", detail=str((local(k), dict(k.attrib))))
+
+
+# ------------------------------------------------------------------------------------------------ shape -> path: fields and the normalisation chain
+_BASIC_SHAPES = ("SVGRect", "SVGCircle", "SVGEllipse", "SVGLine", "SVGPolygon", "SVGPolyline")
+
+
+@obligation(("C04", "C05", "C09", "C02"), "shape.as_path.fields", split=("shape", _BASIC_SHAPES), functions=["svg_types.SVGShape._copy_common_fields"] + ["svg_types." + c + ".as_path" for c in _BASIC_SHAPES])
+def as_path_fields(H):
+    """as_path of every basic shape hands EVERY presentation field of the shape (paint, stroke settings incl. dash array and
+    dash offset, opacities, rules, transform, clip-path, style, display, id) to the path unchanged - whatever their
+    values (symbolic numbers, arbitrary tokens)."""
+    import dataclasses
+
+    from picosvg import svg_types as T
+    from picosvg.svg_transform import Affine2D
+
+    name = H.case("shape", _BASIC_SHAPES)
+    cls = getattr(T, name)
+    shape_fields = {f.name for f in dataclasses.fields(T.SVGShape)}
+    geometry = {"SVGRect": dict(x=1.0, y=2.0, width=30.0, height=20.0), "SVGCircle": dict(cx=5.0, cy=6.0, r=7.0), "SVGEllipse": dict(cx=5.0, cy=6.0, rx=7.0, ry=3.0),
+                "SVGLine": dict(x1=1.0, y1=2.0, x2=3.0, y2=5.0), "SVGPolygon": dict(points="1,2 3,4 5,0"), "SVGPolyline": dict(points="1,2 3,4 5,0")}[name]
+    values = {}
+    for f in dataclasses.fields(T.SVGShape):
+        if isinstance(f.default, float):
+            values[f.name] = H.real("v_" + f.name)
+        elif isinstance(f.default, Affine2D):
+            values[f.name] = Affine2D(*H.reals("t_" + f.name, 6))
+        else:
+            values[f.name] = "token-" + f.name
+    if H.mode == "concrete":
+        values = {k: (v if not isinstance(v, str) else {"fill_rule": "evenodd", "clip_rule": "evenodd", "stroke_linecap": "round", "stroke_linejoin": "bevel", "display": "inline"}.get(k, v)) for k, v in values.items()}
+    shape = H.call(cls, **geometry, **values)
+    path, e = H.catch(cls.as_path, shape)
+    H.prove(e is None and type(path).__name__ == "SVGPath", "as_path.returns_a_path", detail=repr(e))
+    if e is not None:
+        return
+    H.prove(shape_fields <= {f.name for f in dataclasses.fields(T.SVGPath)}, "as_path.path_has_every_shape_field")
+    for n in sorted(shape_fields):
+        got, want = getattr(path, n), values[n]
+        same = H.close(tuple(got), tuple(want)) if isinstance(want, Affine2D) else (got == want if isinstance(want, str) else H.close(got, want))
+        H.prove(same, f"as_path.field_handed_over:{n}", detail=f"{got!r} vs {want!r}")
+
+
+@obligation(("C09", "C13", "C03", "C04", "C19", "C02", "C18"), "path.as_cmd_seq.chain", functions=["svg_types.SVGShape.as_cmd_seq"])
+def as_cmd_seq_chain(H):
+    """as_cmd_seq (what every boolean operation, stroke, bounding box and transform consumes) normalises a copy of the path by
+    explicit_lines, expand_shorthand, absolute and arcs_to_cubics, each applied to the result of the previous one, with the
+    shorthand expanded BEFORE arcs become cubics: S/s after an arc starts at the current point (SVG 8.3.6), which is lost once
+    the arc is a C.  The receiver is not changed."""
+    from picosvg.svg_types import SVGPath
+
+    if H.mode == "concrete":
+        p = SVGPath(d="M0,0 A10,10 0 0 1 20,0 S30,10 40,0")
+        cmds = list(p.as_cmd_seq())
+        last = cmds[-1]
+        H.prove(last[0] == "C" and abs(last[1][0] - 20) < 1e-9 and abs(last[1][1]) < 1e-9 and p.d == "M0,0 A10,10 0 0 1 20,0 S30,10 40,0", "as_cmd_seq.shorthand_expanded_before_arcs_become_cubics", detail=str(last))
+        return
+    trace = []
+    objs = {}
+
+    def rec(op):
+        def r(I, self_, *a, **k):
+            out = self_ if k.get("inplace") else SVGPath(d=self_.d)
+            trace.append((op, id(self_), k.get("inplace", False), id(out)))
+            objs[id(out)] = out
+            return out
+        return r
+
+    for op in ("explicit_lines", "expand_shorthand", "absolute", "arcs_to_cubics"):
+        H.override(SVGPath.__dict__[op], rec(op))
+    src = SVGPath(d="M0,0 a10,10 0 0 1 20,0 s10,10 20,0 h5")
+    res, e = H.catch(SVGPath.as_cmd_seq, src)
+    H.prove(e is None, "as_cmd_seq.no_exception", detail=repr(e))
+    names = [t[0] for t in trace]
+    H.prove(sorted(names) == sorted(["explicit_lines", "expand_shorthand", "absolute", "arcs_to_cubics"]), "as_cmd_seq.all_four_normalisations_run_once", detail=str(names))
+    if sorted(names) != sorted(["explicit_lines", "expand_shorthand", "absolute", "arcs_to_cubics"]):
+        return
+    H.prove(names.index("expand_shorthand") < names.index("arcs_to_cubics"), "as_cmd_seq.shorthand_expanded_before_arcs_become_cubics", detail=str(names))
+    H.prove(trace[0][1] == id(src) and not trace[0][2] and all(trace[i][1] == trace[i - 1][3] for i in range(1, 4)), "as_cmd_seq.each_step_works_on_the_result_of_the_previous_and_never_on_the_receiver", detail=str(trace))
+    H.prove(src.d == "M0,0 a10,10 0 0 1 20,0 s10,10 20,0 h5" and res is objs.get(trace[-1][3]), "as_cmd_seq.receiver_unchanged_result_is_the_last_step")
